@@ -3,11 +3,11 @@
 
    What is proved (all `_partial`, for two separate reasons that the names and the manifest state):
    (a) side conditions: [shape_ok_b] leaves out the G_core sentences that the *current* MontePy cannot lex as
-       intended — particle designators that are also keywords (u x y z) or special symbols that FILE_PATH swallows,
-       the "+" tally modifier, an empty SDEF, padding right after the "(" of a FILL/TRCL value, a library-less
-       ZAID after one with a library, a non-integer xM factor — each of which the harness finds as a concrete
-       rejected sentence (known findings), and for several of which a `_refuted` statement is computed here on
-       the generated LALR automaton;
+       intended — particle designators that are also keywords (u x y z), the designator c (taken for a comment
+       line) or special symbols that FILE_PATH swallows, the "+" tally modifier, an empty SDEF, padding right after
+       the "(" of a FILL/TRCL value, a library-less ZAID after one with a library, a library identifier ending in
+       e, a non-integer xM factor — each of which the harness finds as a concrete rejected sentence (known
+       findings), and for several of which a `_refuted` statement is computed here on the generated LALR automaton;
    (b) the honest limit: derivability in the context-free grammar whose productions are SLY's table does not imply
        that the LALR(1) automaton SLY builds from it (with its conflict resolution) accepts the sentence, nor that
        the ordered regular expressions of the lexer give each token the class [gen] claims, nor that the
@@ -134,11 +134,6 @@ Proof.
   apply orb_true_iff in H. destruct H as [H|H]; apply String.eqb_eq in H; congruence.
 Qed.
 Print Assumptions C12_dispatch_partial.
-(* the source as it is today: *)
-Theorem C12_dispatch_mode_current : Gen.Tables.cell_dispatch_by_substring = true.
-Proof. reflexivity. Qed.
-Print Assumptions C12_dispatch_mode_current.
-
 (* ------------------------------------------------------------------ 4. derivability, by induction on the shape *)
 Lemma Hcell : incl required_cell Gen.Grammar.cell_productions.
 Proof. apply missing_nil_incl. exact C12_required_cell. Qed.
@@ -310,6 +305,22 @@ Theorem C12_fill_paren_padding_refuted :
                   "SPACE"; "NUMBER"; "SPACE"; "NUMBER"; "SPACE"; "NUMBER"; ")"] <> LRAccept.
 Proof. vm_compute. discriminate. Qed.
 Print Assumptions C12_fill_paren_padding_refuted.
+(* the honest limit made concrete: "e4 1 2m r" (a repeat right after a multiply) satisfies the shape predicate, so
+   it is derivable in the generated grammar — and the LALR(1) automaton SLY built from that grammar rejects it *)
+Definition ex_gap : datacard :=
+  mkData None (mkDcls None "e" (Some 4%Z) []) (Some b1) None
+    (DNums (NLSnoc (NLSnoc (NLOne (NNum (ri [1])) (Some b1)) (NMul (ri [2])) (Some b1)) (NRepeat None) None)) [].
+Theorem C12_derivable_not_accepted_refuted :
+  data_shape ex_gap
+  /\ render (data_toks ex_gap) = "e4 1 2m r"
+  /\ Derives Gen.Grammar.data_productions "data_input" (classes (data_toks ex_gap))
+  /\ lr_run lr_data (classes (data_toks ex_gap)) <> LRAccept.
+Proof.
+  assert (H : data_shape ex_gap) by (vm_compute; reflexivity).
+  split; [exact H|]. split; [vm_compute; reflexivity|]. split; [exact (C12_data_derivable_partial ex_gap H)|].
+  vm_compute. discriminate.
+Qed.
+Print Assumptions C12_derivable_not_accepted_refuted.
 (* "sdef" alone *)
 Theorem C12_sdef_empty_refuted : lr_run lr_param_only ["TEXT"] <> LRAccept.
 Proof. vm_compute. discriminate. Qed.
